@@ -444,6 +444,11 @@ func RunC20(run *vk.Run) {
 						run.Violation("bootstrap-overlooks-version", fmt.Sprintf("bootstrap created a new version although an enabled or pending one exists (%d versions, page script %v)", total, s.VerPages), rep)
 					}
 				}
+				// however the listing is paged (short pages, empty pages that carry a continuation token), a key
+				// that has an enabled or pending version is bootstrapped with it
+				if err != nil && c.Ret != "err" && s.FailVerCall == 0 && (anyEnabled || anyPending) {
+					run.Violation("bootstrap-fails-on-paged-listing", fmt.Sprintf("bootstrap fails (%v) although the key has an enabled or pending version and no call failed (%d versions, page script %v)", err, total, s.VerPages), rep)
+				}
 				if (err == nil) != (c.Ret != "err") {
 					note("getver behaviour %s: real error %v, spec %s", em.Cases[i], err, c.Ret)
 				}
@@ -476,8 +481,15 @@ func RunC20(run *vk.Run) {
 					continue
 				}
 				s2 := &Service{Versions: map[string][]*kmspb.CryptoKeyVersion{}, NewVersionState: created, PollStates: s.PollStates, PollErrAt: s.PollErrAt}
-				sctx := gcpkms.NewSigningKeyContext(ctx, &gcpkms.SigningKeyContext{SigningKeyID: "k"})
+				// (a deadline, so that polling that never ends is seen as such: 5 s per pending poll of the script,
+				// and time for one more poll after its last state)
+				dctx, cancel := context.WithTimeout(ctx, time.Duration(5*pend+7)*time.Second)
+				sctx := gcpkms.NewSigningKeyContext(dctx, &gcpkms.SigningKeyContext{SigningKeyID: "k"})
 				name, err := manager(s2).CreateNewSigningKeyVersion(sctx)
+				cancel()
+				if n := len(s.PollStates); n > 0 && s.PollStates[n-1] != kmspb.CryptoKeyVersion_PENDING_GENERATION && s2.polls > n && s.PollErrAt == 0 {
+					run.Violation("polling-does-not-terminate:final-state", fmt.Sprintf("creating a key version kept polling (%d polls) after the service reported the final state %v (poll script %v, state in the create response: %v); the call ended with: %v", s2.polls, s.PollStates[n-1], s.PollStates, created, err), rep)
+				}
 				if err == nil {
 					if v := s2.find(name); v == nil || v.State != kmspb.CryptoKeyVersion_ENABLED {
 						run.Violation("rotation-returns-unusable", fmt.Sprintf("rotation returned version %q which is not enabled (state in the create response: %v, poll script %v)", name, created, s.PollStates), rep)
